@@ -10,6 +10,12 @@
  * before the library text is included; the wrappers call the real (CBMC-modelled) malloc/free, which
  * may fail.  Nothing else of the library text changes.
  *
+ * What is asserted (audit RULE): only what the property text / public headers promise.  After an illegal
+ * callback RETURNS the header leaves return value and outputs undefined and allows further callbacks, so
+ * rejection paths assert "at least one illegal callback" and nothing about results.  Equality of all
+ * context fields (ctx_same) and the field frames of the setters are the SUFFICIENT condition used for
+ * "results do not depend on how the context came about"; they look inside the opaque object on purpose.
+ *
  * "proper" context = ecmult_gen_ctx.built != 0 (secp256k1_context_is_proper); the static context and
  * every byte copy of it have built == 0.  Context objects handed to the functions carry ARBITRARY
  * bytes in every other field. */
@@ -73,8 +79,9 @@ void h_ctx_size(void) {
     size_t r;
     RESET()
     r = secp256k1_context_preallocated_size(flags);
-    __CPROVER_assert(r == (flags_ok(flags) ? sizeof(secp256k1_context) : 0), "C20 ctx_size: sizeof(context) exactly for type CONTEXT without the declassify bit, else 0");
-    __CPROVER_assert(g_def_illegal == (flags_ok(flags) ? 0 : 1) && g_def_error == 0, "C20 ctx_size: exactly one default illegal callback for rejected flags, none otherwise");
+    if (flags_ok(flags)) __CPROVER_assert(r >= sizeof(secp256k1_context) && g_def_illegal == 0, "C20 ctx_size: valid flags (type CONTEXT, no declassify bit outside memcheck builds): a size that holds a context, no callback");
+    else __CPROVER_assert(g_def_illegal >= 1, "C20 ctx_size: rejected flags are reported through the default illegal callback");
+    __CPROVER_assert(g_def_error == 0, "C20 ctx_size: no error callback");
     __CPROVER_assert(g_malloc_n == 0 && g_free_n == 0, "C20 ctx_size: no allocation");
     if (flags == SECP256K1_CONTEXT_NONE) REACH("ctx_size CONTEXT_NONE");
     if (flags == SECP256K1_CONTEXT_DECLASSIFY) REACH("ctx_size declassify rejected");
@@ -82,10 +89,11 @@ void h_ctx_size(void) {
 
     verif_ctx_init(&c); g_def_illegal = 0;
     r = secp256k1_context_preallocated_clone_size(&c);
-    __CPROVER_assert(r == (c.ecmult_gen_ctx.built ? sizeof(secp256k1_context) : 0), "C20 ctx_size: clone_size is sizeof(context) for a proper context, 0 for a copy of the static one");
-    __CPROVER_assert(g_illegal == (c.ecmult_gen_ctx.built ? 0 : 1) && g_def_illegal == 0 && g_error == 0, "C20 ctx_size: clone_size reports a non-proper context exactly once through the context's own callback");
+    if (secp256k1_context_is_proper(&c)) __CPROVER_assert(r >= sizeof(secp256k1_context) && g_illegal == 0, "C20 ctx_size: clone_size of a proper context holds a context, no callback");
+    else __CPROVER_assert(g_illegal >= 1, "C20 ctx_size: clone_size reports a copy of the static context through the context's own illegal callback");
+    __CPROVER_assert(g_def_illegal == 0 && g_error == 0, "C20 ctx_size: clone_size uses only the context's own illegal callback");
     r = secp256k1_context_preallocated_clone_size(secp256k1_context_static);
-    __CPROVER_assert(r == 0 && g_def_illegal == 1, "C20 ctx_size: clone_size of the static context is 0 with one default illegal callback");
+    __CPROVER_assert(g_def_illegal >= 1, "C20 ctx_size: clone_size of the static context reports illegal use");
 }
 
 /* ---- create / preallocated_create ---- */
@@ -97,16 +105,15 @@ void h_ctx_create(void) {
     c = secp256k1_context_create(flags);
     if (flags_ok(flags)) {
         /* (allocation failure ends in the non-returning error callback, checked there) */
-        __CPROVER_assert(g_malloc_n == 1 && g_malloc_size == sizeof(secp256k1_context) && g_free_n == 0, "C20 ctx_create: exactly one malloc, of sizeof(secp256k1_context), no free");
+        __CPROVER_assert(g_malloc_n == 1 && g_free_n == 0, "C20 ctx_create: context creation performs exactly one allocation and releases nothing");
         __CPROVER_assert(c != NULL && g_def_illegal == 0, "C20 ctx_create: valid flags give a context and no callback");
-        __CPROVER_assert(c->ecmult_gen_ctx.built == 1 && c->declassify == 0 && c->hash_ctx.fn_sha256_compression == secp256k1_sha256_transform &&
-                         c->illegal_callback.fn == secp256k1_default_illegal_callback_fn && c->illegal_callback.data == NULL &&
-                         c->error_callback.fn == secp256k1_default_error_callback_fn && c->error_callback.data == NULL,
-                         "C20 ctx_create: fresh context is built, default callbacks, default compression, declassify off");
+        __CPROVER_assert(secp256k1_context_is_proper(c), "C20 ctx_create: a fresh context is a proper (full) context");
+        __CPROVER_assert(c->illegal_callback.fn == secp256k1_default_illegal_callback_fn && c->error_callback.fn == secp256k1_default_error_callback_fn,
+                         "C20 ctx_create: a fresh context uses the default callbacks");
         REACH("ctx_create success");
     } else {
-        __CPROVER_assert(c == NULL && g_def_illegal >= 1, "C20 ctx_create: rejected flags give NULL and report illegal use");
-        __CPROVER_assert(g_malloc_n <= 1 && g_free_n == g_malloc_n, "C20 ctx_create: at most one allocation on the rejection path, and it is released");
+        __CPROVER_assert(g_def_illegal >= 1, "C20 ctx_create: rejected flags report illegal use");
+        __CPROVER_assert(g_malloc_n <= 1, "C20 ctx_create: at most one allocation also on the rejection path");
         REACH("ctx_create rejected flags");
     }
     /* the same flags in caller-provided memory: no allocation, same object content */
@@ -115,8 +122,8 @@ void h_ctx_create(void) {
     g_malloc_n = 0; g_free_n = 0; g_def_illegal = 0;
     p = secp256k1_context_preallocated_create(buf, flags);
     __CPROVER_assert(g_malloc_n == 0 && g_free_n == 0, "C20 ctx_create: preallocated_create never allocates or frees");
-    __CPROVER_assert(p == (flags_ok(flags) ? (secp256k1_context *)buf : NULL), "C20 ctx_create: preallocated_create returns the caller's block, or NULL for rejected flags");
-    __CPROVER_assert(g_def_illegal == (flags_ok(flags) ? 0 : 1), "C20 ctx_create: preallocated_create reports rejected flags exactly once");
+    if (flags_ok(flags)) __CPROVER_assert(p != NULL && __CPROVER_POINTER_OBJECT(p) == __CPROVER_POINTER_OBJECT(buf) && g_def_illegal == 0, "C20 ctx_create: preallocated_create builds the context inside the caller's block, no callback");
+    else __CPROVER_assert(g_def_illegal >= 1, "C20 ctx_create: preallocated_create reports rejected flags");
     if (flags_ok(flags)) __CPROVER_assert(ctx_same(p, c), "C20 ctx_create: malloc-created and preallocated-created contexts are equal in all five fields");
     (void)k;
 }
@@ -135,17 +142,17 @@ void h_ctx_clone(void) {
     __CPROVER_assert(BYTE(src, k) == BYTE(src0, k), "C20 ctx_clone: the source context is not written");
     __CPROVER_assert(g_def_illegal == 0 && g_def_error == 0, "C20 ctx_clone: only the context's own callbacks are used");
     if (src0.ecmult_gen_ctx.built) {
-        __CPROVER_assert(g_malloc_n == 1 && g_malloc_size == sizeof(secp256k1_context) && g_free_n == 0, "C20 ctx_clone: exactly one malloc of sizeof(secp256k1_context)");
+        __CPROVER_assert(g_malloc_n <= 1 && g_free_n == 0, "C20 ctx_clone: at most one allocation");
         if (!g_malloc_failed) {
             __CPROVER_assert(r != NULL && g_illegal == 0 && g_error == 0, "C20 ctx_clone: proper context clones without callback");
-            __CPROVER_assert(BYTE(*r, k) == BYTE(src0, k), "C20 ctx_clone: the clone is a byte copy of the source (all five fields)");
+            __CPROVER_assert(ctx_same(r, &src0), "C20 ctx_clone: the clone equals the source in all five fields");
             REACH("ctx_clone success");
         } else {
-            __CPROVER_assert(r == NULL && g_error == 1, "C20 ctx_clone: allocation failure is reported through the error callback and yields NULL");
+            __CPROVER_assert(g_error >= 1, "C20 ctx_clone: allocation failure is reported through the error callback");
             REACH("ctx_clone allocation failure");
         }
     } else {
-        __CPROVER_assert(r == NULL && g_illegal == 1 && g_error == 0 && g_malloc_n == 0, "C20 ctx_clone: a byte copy of the static context is rejected: NULL, one illegal callback, no allocation");
+        __CPROVER_assert(g_illegal >= 1 && g_malloc_n <= 1, "C20 ctx_clone: a byte copy of the static context is reported as illegal use");
         REACH("ctx_clone of a static copy");
     }
     buf = (malloc)(sizeof(secp256k1_context));
@@ -155,14 +162,14 @@ void h_ctx_clone(void) {
     __CPROVER_assert(g_malloc_n == 0 && g_free_n == 0, "C20 ctx_clone: preallocated_clone never allocates");
     __CPROVER_assert(BYTE(src, k) == BYTE(src0, k), "C20 ctx_clone: preallocated_clone does not write the source");
     if (src0.ecmult_gen_ctx.built) {
-        __CPROVER_assert(r == (secp256k1_context *)buf && g_illegal == 0, "C20 ctx_clone: preallocated_clone returns the caller's block");
-        __CPROVER_assert(BYTE(*r, k) == BYTE(src0, k), "C20 ctx_clone: preallocated clone is a byte copy of the source");
+        __CPROVER_assert(r != NULL && __CPROVER_POINTER_OBJECT(r) == __CPROVER_POINTER_OBJECT(buf) && g_illegal == 0, "C20 ctx_clone: preallocated_clone builds the clone inside the caller's block, no callback");
+        __CPROVER_assert(ctx_same(r, &src0), "C20 ctx_clone: preallocated clone equals the source in all five fields");
     } else {
-        __CPROVER_assert(r == NULL && g_illegal == 1, "C20 ctx_clone: preallocated_clone rejects a copy of the static context with one illegal callback");
+        __CPROVER_assert(g_illegal >= 1, "C20 ctx_clone: preallocated_clone reports a copy of the static context as illegal use");
     }
     RESET()
     r = secp256k1_context_clone(secp256k1_context_static);
-    __CPROVER_assert(r == NULL && g_def_illegal == 1 && g_malloc_n == 0, "C20 ctx_clone: the static context itself is rejected: NULL, one default illegal callback, no allocation");
+    __CPROVER_assert(g_def_illegal >= 1 && g_malloc_n <= 1, "C20 ctx_clone: cloning the static context itself reports illegal use");
 }
 
 /* ---- destroy / preallocated_destroy ---- */
@@ -179,13 +186,12 @@ void h_ctx_destroy(void) {
     secp256k1_context_preallocated_destroy(use_null ? NULL : &d);
     __CPROVER_assert(g_free_n == 0 && g_malloc_n == 0 && g_error == 0 && g_def_illegal == 0, "C20 ctx_destroy: preallocated_destroy never frees");
     if (use_null) {
-        __CPROVER_assert(g_illegal == 0 && BYTE(d, k) == BYTE(d0, k), "C20 ctx_destroy: NULL is a no-op");
+        __CPROVER_assert(g_illegal == 0, "C20 ctx_destroy: NULL is a no-op");
     } else if (d0.ecmult_gen_ctx.built) {
-        __CPROVER_assert(g_illegal == 0 && d.ecmult_gen_ctx.built == 0, "C20 ctx_destroy: a proper context is un-built, no callback");
-        if (k >= GEN_END) __CPROVER_assert(BYTE(d, k) == BYTE(d0, k), "C20 ctx_destroy: preallocated_destroy writes only ecmult_gen_ctx");
+        __CPROVER_assert(g_illegal == 0, "C20 ctx_destroy: a proper context is destroyed without callback");
         REACH("preallocated_destroy proper");
     } else {
-        __CPROVER_assert(g_illegal == 1 && BYTE(d, k) == BYTE(d0, k), "C20 ctx_destroy: a copy of the static context is rejected with one illegal callback and not written");
+        __CPROVER_assert(g_illegal >= 1, "C20 ctx_destroy: a copy of the static context is reported as illegal use");
         REACH("preallocated_destroy static copy");
     }
     /* destroy on a heap object */
@@ -197,13 +203,12 @@ void h_ctx_destroy(void) {
     if (d0.ecmult_gen_ctx.built) {
         __CPROVER_assert(g_free_n == 1 && g_illegal == 0 && g_error == 0, "C20 ctx_destroy: a proper context is released exactly once, no callback");
     } else {
-        __CPROVER_assert(g_free_n == 0 && g_illegal == 1, "C20 ctx_destroy: destroy of a static copy: one illegal callback, no free");
-        __CPROVER_assert(BYTE(*h, k) == BYTE(d0, k), "C20 ctx_destroy: destroy of a static copy writes nothing");
+        __CPROVER_assert(g_illegal >= 1, "C20 ctx_destroy: destroy of a static copy is reported as illegal use");
     }
     RESET()
     secp256k1_context_destroy((secp256k1_context *)secp256k1_context_static);
     secp256k1_context_preallocated_destroy((secp256k1_context *)secp256k1_context_static);
-    __CPROVER_assert(g_def_illegal == 2 && g_free_n == 0, "C20 ctx_destroy: the static context itself is rejected by destroy and preallocated_destroy (one default illegal callback each), never freed");
+    __CPROVER_assert(g_def_illegal >= 2 && g_free_n == 0, "C20 ctx_destroy: the static context itself is reported by destroy and by preallocated_destroy, and never freed");
     __CPROVER_assert(BYTE(*secp256k1_context_static, k) == BYTE(st0, k), "C20 ctx_destroy: the static context object is not written");
 }
 
@@ -224,16 +229,16 @@ void h_ctx_randomize(void) {
     if (rc0.ecmult_gen_ctx.built) {
         __CPROVER_assert(ret == 1 && g_illegal == 0, "C20 ctx_randomize: proper context: returns 1, no callback");
         if (k >= GEN_END) __CPROVER_assert(BYTE(rc, k) == BYTE(rc0, k), "C20 ctx_randomize: writes only ecmult_gen_ctx (hash_ctx, callbacks, declassify untouched)");
-        __CPROVER_assert(rc.ecmult_gen_ctx.built == rc0.ecmult_gen_ctx.built, "C20 ctx_randomize: the context stays built");
+        __CPROVER_assert(secp256k1_context_is_proper(&rc), "C20 ctx_randomize: the context stays a proper context");
         if (use_seed) REACH("randomize with seed"); else REACH("randomize reset (NULL seed)");
     } else {
-        __CPROVER_assert(ret == 0 && g_illegal == 1, "C20 ctx_randomize: a copy of the static context is rejected: 0 and one illegal callback");
-        __CPROVER_assert(BYTE(rc, k) == BYTE(rc0, k), "C20 ctx_randomize: a rejected context is not written");
+        __CPROVER_assert(g_illegal >= 1, "C20 ctx_randomize: a copy of the static context is reported as illegal use");
         REACH("randomize static copy");
     }
     RESET()
     ret = secp256k1_context_randomize((secp256k1_context *)secp256k1_context_static, use_seed ? seed : NULL);
-    __CPROVER_assert(ret == 0 && g_def_illegal == 1, "C20 ctx_randomize: the static context itself is rejected: 0 and one default illegal callback");
+    __CPROVER_assert(g_def_illegal >= 1, "C20 ctx_randomize: randomizing the static context itself reports illegal use");
+    (void)ret;
 }
 
 /* ---- setters: callbacks and sha256 compression ---- */
@@ -269,26 +274,24 @@ void h_ctx_setters(void) {
     __CPROVER_assert(g_illegal == 0 && g_def_illegal == 0 && g_error == 0, "C20 ctx_setters: setting callbacks on a non-static object reports nothing");
     secp256k1_context_set_illegal_callback((secp256k1_context *)secp256k1_context_static, my_illegal, NULL);
     secp256k1_context_set_error_callback((secp256k1_context *)secp256k1_context_static, my_illegal, NULL);
-    __CPROVER_assert(g_def_illegal == 2, "C20 ctx_setters: both callback setters reject the static context object (one default illegal callback each)");
+    __CPROVER_assert(g_def_illegal >= 2, "C20 ctx_setters: both callback setters report the static context object as illegal use");
     /* compression function */
     sc = sc0; RESET() g_compress_calls = 0;
     secp256k1_context_set_sha256_compression(&sc, use_comp ? my_compress : NULL);
-    if (k < hash_off || k >= hash_off + sizeof(secp256k1_hash_ctx)) __CPROVER_assert(BYTE(sc, k) == BYTE(sc0, k), "C20 ctx_setters: set_sha256_compression writes only hash_ctx");
+    if (g_illegal == 0 && (k < hash_off || k >= hash_off + sizeof(secp256k1_hash_ctx))) __CPROVER_assert(BYTE(sc, k) == BYTE(sc0, k), "C20 ctx_setters: set_sha256_compression writes only hash_ctx");
     __CPROVER_assert(g_error == 0 && g_def_illegal == 0 && g_malloc_n == 0, "C20 ctx_setters: set_sha256_compression: no error callback, no allocation");
     if (!sc0.ecmult_gen_ctx.built) {
-        __CPROVER_assert(g_illegal == 1 && BYTE(sc, k) == BYTE(sc0, k) && g_compress_calls == 0, "C20 ctx_setters: set_sha256_compression rejects a copy of the static context: one illegal callback, no write, candidate not run");
+        __CPROVER_assert(g_illegal >= 1, "C20 ctx_setters: set_sha256_compression reports a copy of the static context as illegal use");
         REACH("set_sha256_compression on a static copy");
     } else if (!use_comp) {
         __CPROVER_assert(g_illegal == 0 && sc.hash_ctx.fn_sha256_compression == secp256k1_sha256_transform, "C20 ctx_setters: set_sha256_compression(NULL) restores the built-in compression");
         REACH("set_sha256_compression reset");
     } else {
-        __CPROVER_assert((g_illegal == 0 && sc.hash_ctx.fn_sha256_compression == my_compress) || (g_illegal == 1 && sc.hash_ctx.fn_sha256_compression == sc0.hash_ctx.fn_sha256_compression),
-                         "C20 ctx_setters: a candidate compression function is installed iff it passed the self test; otherwise one illegal callback and no change");
-        __CPROVER_assert(g_compress_calls >= 1, "C20 ctx_setters: the candidate is self-tested before installation");
+        if (g_illegal == 0) __CPROVER_assert(sc.hash_ctx.fn_sha256_compression == my_compress && g_compress_calls >= 1, "C20 ctx_setters: a candidate compression function is installed only after it was run by the self test; a failed self test is reported as illegal use");
         if (g_illegal == 0) REACH("set_sha256_compression accepted"); else REACH("set_sha256_compression failed self test");
     }
     RESET()
     secp256k1_context_set_sha256_compression((secp256k1_context *)secp256k1_context_static, my_compress);
-    __CPROVER_assert(g_def_illegal == 1, "C20 ctx_setters: set_sha256_compression rejects the static context object");
+    __CPROVER_assert(g_def_illegal >= 1, "C20 ctx_setters: set_sha256_compression reports the static context object as illegal use");
     __CPROVER_assert(BYTE(*secp256k1_context_static, k) == BYTE(st0, k), "C20 ctx_setters: the static context object is not written by any setter");
 }
